@@ -5,6 +5,9 @@ CONSTANTS
   Drops = {0, 1, 3}
   Sizes = {0, 1, 3}
   MaxLen = 5000
+  SeqOpts = {TRUE, FALSE}
+  TsOpts = {TRUE, FALSE}
+  Rebinds = TRUE
   Impl = "carry"
 INIT Init
 NEXT SimNext
